@@ -75,7 +75,7 @@ def run_scratch(name, tier="quick", pid=None):
     """like run(), but the patch is applied to a scratch worktree of /repo's HEAD and the check analyses that copy
     (VERIF_REPO), so /repo stays untouched and other work can go on meanwhile"""
     d = os.path.join(SEEDED, name)
-    pid = pid or (name.split("-")[1] if name.startswith(("r2-", "r3-", "r4-", "r5-")) else name.split("-")[0])
+    pid = pid or (name.split("-")[1] if name.startswith(("r2-", "r3-", "r4-", "r5-", "r6-")) else name.split("-")[0])
     head = sh("git rev-parse HEAD", cwd="/repo")[1].strip()
     if not os.path.isdir(SCRATCH):
         rc, o = sh(f"git worktree add -q --detach {SCRATCH} {head}", cwd="/repo")
@@ -102,7 +102,7 @@ def run_scratch(name, tier="quick", pid=None):
 
 def run(name, tier="quick", pid=None):
     d = os.path.join(SEEDED, name)
-    pid = pid or (name.split("-")[1] if name.startswith(("r2-", "r3-", "r4-", "r5-")) else name.split("-")[0])
+    pid = pid or (name.split("-")[1] if name.startswith(("r2-", "r3-", "r4-", "r5-", "r6-")) else name.split("-")[0])
     rc, o = sh("git status --porcelain", cwd="/repo")
     assert o.strip() == "", "repo dirty: " + o
     rc, o = sh(f"git apply {d}/patch.diff", cwd="/repo")
@@ -130,6 +130,8 @@ if __name__ == "__main__":
         sys.exit(0 if verify(sys.argv[2], sys.argv[3], "/tmp/wt2", "r2-") else 1)
     if cmd == "verify3":  # third round: worktrees under /tmp/wt3, stored as seeded/r3-Cnn-mK
         sys.exit(0 if verify(sys.argv[2], sys.argv[3], "/tmp/wt3", "r3-") else 1)
+    if cmd == "verify6":
+        sys.exit(0 if verify(sys.argv[2], sys.argv[3], "/tmp/wt6", "r6-") else 1)
     if cmd == "verify5":
         sys.exit(0 if verify(sys.argv[2], sys.argv[3], "/tmp/wt5", "r5-") else 1)
     if cmd == "verify4":  # fourth round: worktrees under /tmp/wt4, stored as seeded/r4-Cnn-mK
